@@ -22,6 +22,9 @@ ORACLES = {
     "C05": ["oracle_c05"],
     "C07": ["oracle_c07", "c07_"],
     "C02": ["oracle_c02"],
+    "C03": ["oracle_c03"],
+    "C04": ["oracle_c03_c04"],
+    "C14": ["oracle_c14", "oracle_c03_c04", "oracle_c01"],
     "C08": ["oracle_c08", "c08_"],
     "C09": ["oracle_c09"],
     "C10": ["oracle_c10", "c10_"],
